@@ -1,6 +1,8 @@
 """C14 - run_forever always terminates; on_close fires once, last, with the close reason."""
 import struct
 
+import itertools
+
 from hypothesis import strategies as st
 
 from .. import refmodel as rm
@@ -87,6 +89,16 @@ def attempt_spec(run):
     return spec, close_args
 
 
+def _several_replies_owed(run):
+    """The server closes its socket right behind a close frame that shares its instant with two or more pings: the second
+    pong already meets the reset, and a client that reports the lost connection instead of the close frame it has not read
+    yet is not wrong. Such a server is modelled as half-closing (the statement is about runs the close frame ends)."""
+    end = run["ending"]
+    if not end.get("drop") or end.get("gap", 1.0) != 0.0 or not run.get("traffic"):
+        return False
+    return sum(1 for f in run["traffic"][-1][1] if f.get("op") == rm.PING) >= 2
+
+
 def run_case(case):
     import websocket
 
@@ -102,7 +114,7 @@ def run_case(case):
         if r.get("lost_first"):
             # reconnect interval set: a first connection is lost (end of stream) before the one that ends the run
             attempts.append({"timeline": [[0.3, ["data", simpeers.frame_bytes([{"op": rm.TEXT, "p": b"first"}])]], [r["lost_first"], ["eof"]]], "default_pong": 0.01})
-        if r.get("full_close") and isinstance(a, dict):
+        if r.get("full_close") and isinstance(a, dict) and not _several_replies_owed(r):
             a["full_close"] = True  # the server's end of stream is a close() of its socket: later client writes meet a reset
         attempts.append(a)
         expect.append(ca)
@@ -456,16 +468,17 @@ def _func_lines(case):
     return dict(holder["s"]._fcount)
 
 
-def meeting_cases(mi, shard, of):
+def meeting_cases(mi, shard, of, lines=MEET_LINES, deep=False):
     base = MEETINGS[mi]
     funcs = _func_lines(base)
     i = 0
     for key in sorted(funcs):
         if not key.startswith(("_app.py:", "_core.py:", "_socket.py:", "_dispatcher.py:")):
             continue
-        for line in range(1, min(funcs[key], MEET_LINES) + 1):
-            for val in (1, [1, 40], [2, 40]):
-                for ch in ([0, 0, 0], [0, 1, 1], [1, 0, 2]):
+        for line in range(1, min(funcs[key], lines) + 1):
+            for val in ((1, [1, 40], [2, 40], [1, 6], 2) if deep else (1, [1, 40], [2, 40])):
+                for ch in (itertools.product((0, 1, 2), repeat=3) if deep else ([0, 0, 0], [0, 1, 1], [1, 0, 2])):
+                    ch = list(ch)
                     i += 1
                     if i % of == shard:
                         yield dict(base, choices=ch, preempt_at={key: {str(line): val}})
@@ -488,12 +501,14 @@ def _count_steps(case):
 
 
 def jobs(tier, seed):
-    n, shards = (2400, 8) if tier == "quick" else (144000, 16)
+    n, shards = (2400, 8) if tier == "quick" else (432000, 16)
     out = [{"name": f"hyp-{i}", "kind": "hyp", "seed": seed * 1000 + i, "n": n // shards} for i in range(shards)]
     out.append({"name": "stream-after-close", "kind": "stream"})
     out += [{"name": f"close-codes-{k}", "kind": "codes", "shard": k, "of": 4} for k in range(4)]
     out += [{"name": f"close-race-{k}", "kind": "race", "shard": k, "of": 4} for k in range(4)]
-    out += [{"name": f"meeting-{mi}-{k}", "kind": "meeting", "scenario": mi, "shard": k, "of": 4} for mi in range(len(MEETINGS)) for k in range(4)]
+    msh = 4 if tier == "quick" else 16
+    out += [{"name": f"meeting-{mi}-{k}", "kind": "meeting", "scenario": mi, "shard": k, "of": msh, "lines": MEET_LINES if tier == "quick" else 60, "deep": tier != "quick"}
+            for mi in range(len(MEETINGS)) for k in range(msh)]
     of = 4 if tier == "quick" else 16
     for fi in range(len(FIXED)):
         for sh in range(of):
@@ -509,9 +524,9 @@ def run_job(job, coll):
             coll.check(c, run_case)
         coll.exhaustive["every close status that may appear on the wire (1000-1003, 1007-1014, 3000-4999) as the server's ending"] = True
     elif job["kind"] == "meeting":
-        for c in meeting_cases(job["scenario"], job["shard"], job["of"]):
+        for c in meeting_cases(job["scenario"], job["shard"], job["of"], job["lines"], job["deep"]):
             coll.check(c, run_case)
-        coll.exhaustive[f"two threads in the closing code: a (held) preemption at each of the first {MEET_LINES} lines of every function, scenario {job['scenario']}"] = True
+        coll.exhaustive[f"two threads in the closing code: a (held) preemption at each of the first {job['lines']} lines of every function, scenario {job['scenario']}"] = True
     elif job["kind"] == "race":
         for c in close_race_cases(job["shard"], job["of"]):
             coll.check(c, run_case)
